@@ -95,9 +95,9 @@ PROPS["C19"] = {
                                      "matrix buffer) is inside its object - from ARBITRARY earlier matrices smaller, equal and larger than needed",
          "bounds": "(n1,n2,S) of the dl_hist / dl_inv instances; all CBMC pointer checks selected",
          "opts": {"unwind": 8, "timeout": 1500, "unwindset": DL_UNWINDSET},
-         "quick": ["dl_hist_1_1_2", "dl_hist_1_2_3", "dl_hist_2_2_2", "dl_hist_2_2_3", "dl_hist_2_2_4", "dl_hist_2_2_5", "dl_hist_3_2_3", "dl_inv_2_2_3", "dl_inv_2_3_5",
+         "quick": ["dl_hist_1_1_2", "dl_hist_1_2_3", "dl_hist_2_2_2", "dl_hist_2_2_3", "dl_hist_2_2_4", "dl_hist_2_2_5", "dl_hist_3_2_3", "dl_hist_1_3_4", "dl_hist_3_1_4", "dl_inv_2_2_3", "dl_inv_2_3_5",
                    "dl_laws_1_1_20", "dl_laws_2_1_20"],
-         "thorough": ["dl_hist_2_2_6", "dl_hist_2_3_5", "dl_hist_3_3_2", "dl_hist_3_3_3", "dl_hist_3_3_4", "dl_hist_3_3_5", "dl_hist_3_3_7", "dl_hist_4_3_3", "dl_inv_3_1_6",
+         "thorough": ["dl_hist_2_2_6", "dl_hist_2_3_5", "dl_hist_1_4_5", "dl_hist_3_3_2", "dl_hist_3_3_3", "dl_hist_3_3_4", "dl_hist_3_3_5", "dl_hist_3_3_7", "dl_hist_4_3_3", "dl_inv_3_1_6",
                       "dl_laws_3_3_20", "dl_laws_4_4_4"]},
         {"id": "MEM-counters", "text": "TrigramIndex::prepare after the named histories (incl. clear + add): every counts.get_unchecked_mut(ix) is in range "
                                        "(all CBMC pointer checks selected; concrete one-letter titles)",
@@ -200,8 +200,8 @@ SPLIT_SAFE = {"id": "SPLIT-safe", "text": "for ANY joined match permitted by the
                                          "yield small numbers",
               "bounds": "(l1,gap,l2) from the instance names, total <= 11 characters; span, typo count (multiples of 0.5 up to 3.5), fin flag symbolic",
               "opts": {"unwind": 13, "timeout": 1200, "mem_gb": 10},
-              "quick": ["split_1_1_1", "split_1_1_2", "split_2_1_1", "split_2_1_2", "split_2_1_3"],
-              "thorough": ["split_1_1_5", "split_3_1_3", "split_2_2_2", "split_4_1_4", "split_1_1_8", "split_5_1_5"]}
+              "quick": ["split_1_1_1", "split_1_1_2", "split_2_1_1", "split_2_1_2", "split_2_1_3", "split_1_2_1", "split_2_2_2"],
+              "thorough": ["split_1_1_5", "split_3_1_3", "split_1_3_2", "split_4_1_4", "split_1_1_8", "split_5_1_5"]}
 
 REG_LIMIT = {"id": "REG-limit", "text": "top-level registry, real lib.rs: create_store, K hits in the result buffer, then set_limit with a SYMBOLIC limit: no "
                                         "underflow / panic / capacity overflow, the limit is stored, the buffered result is untouched and the buffer can hold `limit` hits",
@@ -362,7 +362,7 @@ PROPS["C12"] = {
                                 "rating, then fewer words, then fewer characters; highlight() adds no marker without matches"],
     "outside": "more than 3 records (4 exceed 14 GB); limit 0; separator-only query STRINGS (they become empty queries only through the tokeniser); the final "
                "LimitSort / highlight pipeline of Store::search (glued)",
-    "lemmas": [ST_TOP, dict(ST_HT, id="ST-top-current", quick=["st_ht_top_add", "st_ht_add_top_add", "st_ht_add_add_l1_top_l2", "st_ht_l1_add_top_add"], thorough=["st_ht_add_add_l2_top_l1", "st_ht_add_top_clear_add"]),
+    "lemmas": [ST_TOP, dict(ST_HT, id="ST-top-current", quick=["st_ht_top_add", "st_ht_add_top_add", "st_ht_add_add_l1_top_l2", "st_ht_l1_add_top_add", "st_ht_l1_addb_top_add"], thorough=["st_ht_add_add_l2_top_l1", "st_ht_add_top_clear_add"]),
                dict(TM_STRUCT, id="EMPTY-score", quick=["tm_r2_q0"], thorough=[])],
 }
 PROPS["C10"] = {
